@@ -85,3 +85,68 @@ Fixpoint wrap_spec (len : N) (c : N) (tr : list (op * res)) : Prop :=
 (* unread part of the buffer *)
 Definition unread (b : sbuf) : data :=
   if b_hr b then ddrop (b_pos b) (b_buf b) else b_buf b.
+
+(* the cursor of the reference after an accepted history *)
+Fixpoint spec_cursor (c : N) (tr : list (op * res)) : N :=
+  match tr with
+  | [] => c
+  | (ORead _ _, RData d) :: t | (OGet _, RData d) :: t => spec_cursor (c + dlen d) t
+  | (OSeek p st, RBool true) :: t => spec_cursor (seek_target c p st) t
+  | (OSeek p st, RNum r) :: t => spec_cursor (if r =? seek_target c p st then r else c) t
+  | _ :: t => spec_cursor c t
+  end.
+
+(* the stream accepted by add() after a history (bare buffer) *)
+Fixpoint spec_stream (s : list N) (tr : list (op * res)) : list N :=
+  match tr with
+  | [] => s
+  | (OAdd d, RNum k) :: t => spec_stream (s ++ ntake k (bytes_of d)) t
+  | _ :: t => spec_stream s t
+  end.
+
+(* "bytes taken from the reader = position + unread bytes stored": false from the moment a
+   StreamReaderWrapper.read has bypassed the buffer and returned data *)
+Definition synced (w : wst) : bool :=
+  w_cur w =? b_pos (w_buf w) + buf_size (w_buf w).
+
+(* side condition for StreamReaderWrapper: a seek that reports success is made only while
+   the wrapper is in sync (i.e. no successful seek after a bypassing read) *)
+Fixpoint seeks_in_sync (k : kind) (ops : list op) (w : wst) : Prop :=
+  match ops with
+  | [] => True
+  | o :: t =>
+      match o with
+      | OSeek p true => fst (buf_seek p (w_buf w)) = true -> synced w = true
+      | _ => True
+      end /\ seeks_in_sync k t (snd (step k o w))
+  end.
+
+(* PatchedIceCastClient as seen by its reader: downloads are not observable *)
+Definition iop_op (o : iop) : option op :=
+  match o with
+  | IDownload _ => None
+  | IRead n => Some (ORead (Some n) None)
+  | ISeek p => Some (OSeek p true)
+  | IProt v => Some (OProt v)
+  end.
+
+Fixpoint ice_trace (block : N) (ops : list iop) (w : wst) : list (op * res) :=
+  match ops with
+  | [] => []
+  | o :: t =>
+      let '(r, w') := ice_step block o w in
+      match iop_op o with
+      | Some o' => (o', r) :: ice_trace block t w'
+      | None => ice_trace block t w'
+      end
+  end.
+
+Fixpoint ice_state (block : N) (ops : list iop) (w : wst) : wst :=
+  match ops with
+  | [] => w
+  | o :: t => ice_state block t (snd (ice_step block o w))
+  end.
+
+(* every chunk obtained by one download iteration is at most the block that fits() checked *)
+Definition chunks_within (block : N) (ops : list iop) : Prop :=
+  forall c, In (IDownload c) ops -> c <= block.
